@@ -296,6 +296,10 @@ def roundtrip(vc):
     else:
         import datetime
         t0 = datetime.datetime(y, m, d, h, mi, s)
+        # history: instants on the other civil day of the same (noon-to-noon) Julian day number were converted just before; the answer for t0 must not depend on them
+        for other in (t0 - datetime.timedelta(hours=12), t0 + datetime.timedelta(hours=12), t0 + datetime.timedelta(days=1)):
+            if 1901 <= other.year <= 2099:
+                vc.fn(SD + "julianDateToDatetime")(vc.fn(SD + "datetimeToJulianDate")(other))
         back = vc.fn(SD + "julianDateToDatetime")(vc.fn(SD + "datetimeToJulianDate")(t0))
         vc.ensure("O-C05-roundtrip", back == t0)
         vc.ensure("O-C05-roundtrip.cal-pre", True)
